@@ -171,8 +171,13 @@ def h_ops(ctx):
             if kind == "esri":
                 continue
             loc_cells = not loc_cells
-            g.data_location = Location.CELLS if loc_cells else Location.POINTS
+            # the documented ways of naming a location: the enum member, its name, its value
+            member = Location.CELLS if loc_cells else Location.POINTS
+            form = ctx.choice(f"locform{k}", 3)
+            g.data_location = [member, member.name, member.value][form]
             objs[-1][1] = loc_cells
+            ctx.check(g.data_location is member, "data-location-not-the-member-set",
+                      {"sig": f"form{form}", "got": repr(g.data_location)})
 
     def fresh_for(lc):
         if kind == "unstructured":
